@@ -136,7 +136,7 @@ def parse_print_json(out, tag):
     return res
 
 
-def tlc(module, cfg, scratch, env=None, workers=None, timeout=1800, args=(), heap="6g",
+def tlc(module, cfg, scratch, env=None, workers=None, timeout=1800, args=(), heap="4g",
         files=None, deadlock=None):
     """Run TLC on spec/<module>.tla with spec/<cfg> inside a scratch copy of spec/.
     Returns TLCResult.  Raises Infra on timeout or a TLC/Java error that is not a
